@@ -1,5 +1,6 @@
 import Feox.Props.C04
 import Feox.Fmt.Idem
+import Feox.Fmt.Open
 /-!
 # C04 (continued) — recovery's repair writes change nothing a key shows, on the bytes
 
@@ -51,5 +52,28 @@ theorem loser_retirement_invisible_on_bytes {img : Image} {v lo total : Nat} {in
       rw [hA.2, hB.2, hst, ← List.foldl_map (f := liveOf info) (g := absorbLive),
         ← List.foldl_map (f := liveOf info) (g := absorbLive), map_filter_outside]
       exact fold_filter_same k _ (keepLive s e) (hlosers k)
+
+/-- **Opening a clean device is pure**: `recoverImage` — the whole open, compared with the real one on
+every image — of a device with valid metadata, a clear journal and a data area that represents a tiling
+by records with pairwise different keys and complete markers (what `repfile` finds after every
+acknowledged flush + clean close) returns `.ok`, issues no device write, leaves the image as it is, and
+shows the newest-wins table over exactly the tiling's records.  Opening it again is therefore the same
+computation on the same bytes: any number of opens without a write yield the same contents. -/
+theorem open_of_clean_device_is_pure (img : Image) (size : Nat) (o : Opts) (info : Gen → RecMeta) (d : Disk) (L : List Rec)
+    (md : Meta) (js : JournalState)
+    (hro : o.readOnly = false) (httl : o.ttlOn = false)
+    (hsize : validDeviceSize size = true) (himg : img.size * BSZ = size) (hnz : imageAllZero img = false)
+    (hsig : slice (selectMeta (blockAt img FEOX_METADATA_BLOCK) (blockAt img FEOX_METADATA_BACKUP_BLOCK)) 0 FEOX_SIGNATURE_SIZE = FEOX_SIGNATURE)
+    (hmd : Meta.decode (selectMeta (blockAt img FEOX_METADATA_BLOCK) (blockAt img FEOX_METADATA_BACKUP_BLOCK)) = some md)
+    (hjs : decodeJournal ((List.range ALLOCATION_JOURNAL_BLOCKS).flatMap fun i => blockAt img (ALLOCATION_JOURNAL_START_BLOCK + i)) (size / BSZ) = .ok js)
+    (hclear : js.extents = [])
+    (hrep : Rep img md.version FEOX_DATA_START_BLOCK (size / BSZ) info d) (ht : TiledBy d (size / BSZ) L FEOX_DATA_START_BLOCK)
+    (hmarks : MarksClean img FEOX_DATA_START_BLOCK (size / BSZ) d)
+    (hnd : (L.map (fun r => (info r.2.1).key)).Nodup) :
+    ∃ r, (recoverImage img size o).result = .ok r ∧ (recoverImage img size o).io = [] ∧ r.image = img ∧
+      r.version = md.version ∧ r.live = L.foldl (fun lv r => absorbLive lv (liveOf info r)) [] ∧
+      recoverImage r.image size o = recoverImage img size o := by
+  obtain ⟨r, h1, h2, h3, h4, h5⟩ := recover_clean_image img size o info d L md js hro httl hsize himg hnz hsig hmd hjs hclear hrep ht hmarks hnd
+  exact ⟨r, h1, h2, h3, h4, h5, by rw [h3]⟩
 
 end Feox.C04
